@@ -47,8 +47,8 @@ CHECKS = {
              'reference sample). (O) every bulk shot is checked against the specification with the verified solver; 4096-shot runs '
              'check unbiasedness at 7 sigma and uniformity over the 2^r reachable records; outcome-deterministic circuits must give '
              'bytes identical to the documentation encoder through in-memory and forced-streaming paths, 6 formats, shot counts across '
-             'batch boundaries, 3 widths, tableau vs tree reference samples. FrameRun.framed_run_is_legal: every frame-shifted copy of a legal reference run is a legal run, for circuits of any length; pair-measurement segments regenerated from source. FrameComplete.frame_exact: with the initial frame drawn from the stabilizer group of the initial state (products of Z for the zero state) and the frame multiplied by the measured operator under a randomisation bit, the set of records the frame sampler can report equals the set of records the semantics allows on the same operations (soundness for every choice of bits, completeness by some choice), for any number of qubits and operations; the reference run is any run of the inverse-tableau simulator (Run.sim_run), which exists for every operation list (sim_run_exists). FrameProg.fp_exact extends this to adaptive programs: Paulis controlled by an earlier result (feedback, resets as measurement + controlled Pauli, MR) or by an external bit that differs between reference and shot (sweep bits, Pauli noise with fixed fault bits); reset_clears_x: the model sampler\'s reset rule is Stim\'s (no X component left on the qubit).',
-        note=TB + ' RNG quality is tested (statistics), not proved. fp_exact is about the model sampler FrameProg.fprun (frame, reference record, own record); that the C++ '
+             'batch boundaries, 3 widths, tableau vs tree reference samples. FrameRun.framed_run_is_legal: every frame-shifted copy of a legal reference run is a legal run, for circuits of any length; pair-measurement segments regenerated from source. FrameComplete.frame_exact: with the initial frame drawn from the stabilizer group of the initial state (products of Z for the zero state) and the frame multiplied by the measured operator under a randomisation bit, the set of records the frame sampler can report equals the set of records the semantics allows on the same operations (soundness for every choice of bits, completeness by some choice), for any number of qubits and operations; the reference run is any run of the inverse-tableau simulator (Run.sim_run), which exists for every operation list (sim_run_exists). FrameProg.fp_exact extends this to adaptive programs: Paulis controlled by an earlier result (feedback, resets as measurement + controlled Pauli, MR) or by an external bit that differs between reference and shot (sweep bits, Pauli noise with fixed fault bits); reset_clears_x: the model sampler\'s reset rule is Stim\'s (no X component left on the qubit). FrameUniform: the reported flips are GF(2)-linear in (initial frame, randomisation bits) also through feedback and resets (flipsp_linear), hence every reachable record has the same number of preimages (shots_uniform, via Uniform.fibers_equal): uniform bits give the uniform distribution on the legal records.',
+        note=TB + ' RNG quality (that the bits are uniform and independent) is tested (statistics), not proved. fp_exact is about the model sampler FrameProg.fprun (frame, reference record, own record); that the C++ '
                   'routines implement its per-instruction rules is tied per routine (GenProofs_FrameMeas, Gen_FrameNoise) and by the oracle; heralded and multi-outcome channels are covered only as Paulis with fixed fault bits.',
         design='§4 C02'),
     'C09': dict(
